@@ -214,7 +214,7 @@ def lifting_index_bounds(out, eng):
         m = re.search(r"(src/[\w/]+\.rs)", n)
         if m:
             last_file = m.group(1)
-        if last_file.startswith("src/tc/lift/") and "::test" not in n and not re.search(r"::(fmt|clone|eq|hash|assert_fields_are_eq)$", n):
+        if last_file.startswith(("src/tc/lift/", "src/tc/rule/")) and "::test" not in n and not re.search(r"::(fmt|clone|eq|hash|assert_fields_are_eq)$", n):
             fns.append((n if m else "%s::<%s>" % (n, last_file), f))
     t0 = time.time()
     explored, skipped, flagged = 0, [], []
